@@ -73,6 +73,16 @@ impl NodeDrive {
     }
     pub fn storage_data_disk(db: &Database, reclame_space: bool, db_name: &String) -> u32 {
         let keys_to_update = get_keys_to_update(db, reclame_space);
+        // The start-up opens both files of every database it finds a keys file for: the values file of a new database has to exist
+        // before its keys file does, or a crash in between leaves a node that cannot start
+        let values_file_name = format!("{}.values", file_name_from_db_name(&db_name));
+        if !Path::new(&values_file_name).exists() {
+            OpenOptions::new()
+                .append(true)
+                .create(true)
+                .open(&values_file_name)
+                .unwrap();
+        }
         let mut keys_file = get_key_file_append_mode(&db_name, reclame_space);
         let (mut values_file, current_value_file_size) =
             get_values_file_append_mode(&db_name, reclame_space);
